@@ -29,7 +29,11 @@ fn fields_text(rng: &mut Rng, named: bool, n: usize) -> Vec<String> {
 }
 
 fn strip_trailing_comma(s: &str) -> String {
-    // canonical token strings: `{ a : u8 , }` -> `{ a : u8 }`
+    // canonical token strings: `{ a : u8 , }` -> `{ a : u8 }`; a comma with no field in front of it is
+    // not a trailing comma (`{ , }` is not a field list at all)
+    if s.contains("{ , }") || s.contains("( , )") {
+        return s.to_string();
+    }
     s.replace(", } ", "} ").replace(", ) ", ") ")
 }
 
